@@ -14,4 +14,5 @@ pub use retry_policy::{RequestInfo, RetryDecision, RetryPolicy, RetrySession};
 
 // Verification hook (inert unless built by `cargo kani`, which sets --cfg kani).
 #[cfg(kani)]
+#[rustfmt::skip] // the module file only exists in the verification scratch tree
 mod verif_kani;
